@@ -15,6 +15,7 @@ else
   git -C /repo worktree add --detach $ROOT/repo $HEAD >/dev/null 2>&1 || { echo "cannot create worktree"; exit 2; }
   rsync -a /verif/.build/ $ROOT/verif/.build/ --exclude run 2>/dev/null
 fi
+[ -f $ROOT/repo/Cargo.lock ] || cp /repo/Cargo.lock $ROOT/repo/Cargo.lock    # not tracked by the repository
 trap 'git -C $ROOT/repo checkout -q -- .' EXIT
 git -C $ROOT/repo apply "$PATCH" || { echo "patch does not apply"; exit 2; }
 rsync -a --delete --exclude .git --exclude .build --exclude replays --exclude evidence /verif/ $ROOT/verif/
